@@ -116,7 +116,7 @@ AritySs(P, ss) ==
           [] st.n \in {"del", "delafter"} -> Len(st.idx) = KeysOf(P, st.m) /\ ArityEs(P, st.idx)
           [] OTHER -> TRUE
      /\ AritySs(P, Tail(ss))
-IntTyped(e) == e.n = "int" \/ (e.n = "var" /\ e.m \in {"ci", "cd", "gi", "gk", "tm"}) \/ (e.n = "cap")
+IntTyped(e) == e.n = "int" \/ (e.n = "var" /\ e.m \in {"ci", "cd", "gi", "gk", "tm", "ti"}) \/ (e.n = "cap")
 ZeroDivEs(es) == es # <<>> /\ (ZeroDivE(Head(es)) \/ ZeroDivEs(Tail(es)))
 ZeroDivE(e) ==
   CASE e.n = "bin" -> (e.op \in {"/", "%"} /\ e.r.n = "int" /\ e.r.v = 0 /\ IntTyped(e.l)) \/ ZeroDivE(e.l) \/ ZeroDivE(e.r)
